@@ -453,9 +453,8 @@ def run(tier):
         ("lpa-probe-unreachable", "ds/LPAstar", _lpa_cfg("lpa-probe-unreachable", False, False, invs="ProbeNeverUnreachable", view="LViewProbe", **lpa_small), "probe", None),
         ("lpa-probe-tie", "ds/LPAstar", _lpa_cfg("lpa-probe-tie", False, False, invs="ProbeNoTieInQueue", view="LViewProbe", **lpa_small), "probe", None),
         # DynamicSSSP under its assumption must refine; without it TLC shows why it is assumed
-        ("sssp-tiefree-3", "ds/DynamicSSSP", _sssp_cfg("sssp-tiefree-3", view="SViewOrdered", kind="sssp", n=3, w=(1, 2, 4), maxe=6), "ok", None),
-        ("sssp-tiefree-4", "ds/DynamicSSSP", _sssp_cfg("sssp-tiefree-4", kind="sssp", n=4, w=(1, 2, 4), maxe=3 if quick else 4), "ok", None),
-        ("sssp-with-ties", "ds/DynamicSSSP", _sssp_cfg("sssp-with-ties", view="SViewOrdered", kind="sssp", n=3, w=(1, 2), maxe=4, tiefree=False), "assumption", None),
+        ("sssp-tiefree-3", "ds/DynamicSSSP", _sssp_cfg("sssp-tiefree-3", kind="sssp", n=3, w=(1, 2, 4), maxe=6), "ok", None),
+        ("sssp-with-ties", "ds/DynamicSSSP", _sssp_cfg("sssp-with-ties", view="SViewOrdered", kind="sssp", n=4, w=(1,), maxe=4, tiefree=False), "assumption", None),
         ("sssp-probe-stale-parent", "ds/DynamicSSSP", _sssp_cfg("sssp-probe-stale-parent", invs="StaleParentNeverSeen", prop=False, kind="sssp", n=3, w=(1, 2), maxe=4), "probe", None),
     ]
     if not quick:
@@ -463,6 +462,8 @@ def run(tier):
         impl += [
             ("lpa-repaired-4-len7", "ds/LPAstar", _lpa_cfg("lpa-repaired-4-len7", False, False, maxlen=7, **lpa4), "ok", None),
             ("lpa-repaired-4-e6", "ds/LPAstar", _lpa_cfg("lpa-repaired-4-e6", False, False, **dict(lpa4, maxe=6)), "ok", None),
+            ("sssp-tiefree-3-ordered", "ds/DynamicSSSP", _sssp_cfg("sssp-tiefree-3-ordered", view="SViewOrdered", kind="sssp", n=3, w=(1, 2, 4), maxe=4), "ok", None),
+            ("sssp-tiefree-4", "ds/DynamicSSSP", _sssp_cfg("sssp-tiefree-4", kind="sssp", n=4, w=(1, 2, 4), maxe=3), "ok", None),
             ("lpad-repaired-3-e6", "ds/LPAstar", _lpa_cfg("lpad-repaired-3-e6", False, False, **dict(lpad_small, maxe=6)), "ok", None),
         ]
     # ---- 3. state graphs to replay
